@@ -325,6 +325,8 @@ impl Runner {
             "layout" => crate::layout::do_layout(self, st),
             "fsck" => self.emit_fsck(),
             "probe_write" => self.do_probe_write(st),
+            "apath_table" => self.do_apath_table(st),
+            "walk" => self.do_walk(st),
             other => panic!("unknown step op {other}"),
         }
     }
@@ -666,6 +668,83 @@ impl Runner {
             "mon_errors": out.mon_errors.len(), "mon_list": out.mon_errors,
             "tree": [], "entries": [], "quick": false, "versions": [], "changes": out.val.unwrap_or_default(),
             "dest_unchanged": true, "outside_unchanged": true, "ms": out.ms}));
+    }
+
+    /// The real comparator, validity test and ancestor test on a table of raw strings.
+    /// Logs one event per block of rows: valid[i], panics[i] (From<&str> panicked), and for the
+    /// rows of the block cmp[i][j] in {-1,0,1} and prefix[i][j] (self.is_prefix_of(other)); entries
+    /// involving an invalid string are 9.
+    fn do_apath_table(&mut self, st: &Value) {
+        let raws: Vec<Vec<u8>> = serde_json::from_value(st["strings"].clone()).expect("strings");
+        let strs: Vec<String> = raws.iter().map(|b| String::from_utf8(b.clone()).expect("utf8 strings only")).collect();
+        let valid: Vec<bool> = strs.iter().map(|s| Apath::is_valid(s)).collect();
+        let panics: Vec<bool> = strs
+            .iter()
+            .map(|s| catch_unwind(AssertUnwindSafe(|| {
+                let _ = Apath::from(s.as_str());
+            }))
+            .is_err())
+            .collect();
+        let _ = take_panic();
+        let parsed: Vec<Option<Apath>> = strs.iter().enumerate().map(|(i, s)| if valid[i] && !panics[i] { Some(Apath::from(s.as_str())) } else { None }).collect();
+        let fromstr_ok: Vec<bool> = strs.iter().map(|s| s.parse::<Apath>().is_ok()).collect();
+        let n = strs.len();
+        let block = st.get("block").and_then(|x| x.as_u64()).unwrap_or(16) as usize;
+        let mut i0 = 0;
+        while i0 < n {
+            let i1 = (i0 + block).min(n);
+            let mut cmp = Vec::new();
+            let mut pre = Vec::new();
+            for i in i0..i1 {
+                let mut crow = Vec::new();
+                let mut prow = Vec::new();
+                for j in 0..n {
+                    match (&parsed[i], &parsed[j]) {
+                        (Some(a), Some(b)) => {
+                            crow.push(match a.cmp(b) {
+                                std::cmp::Ordering::Less => -1,
+                                std::cmp::Ordering::Equal => 0,
+                                std::cmp::Ordering::Greater => 1,
+                            });
+                            prow.push(if a.is_prefix_of(b) { 1 } else { 0 });
+                        }
+                        _ => {
+                            crow.push(9);
+                            prow.push(9);
+                        }
+                    }
+                }
+                cmp.push(crow);
+                pre.push(prow);
+            }
+            self.log.emit(json!({"ev": "apath", "strings": raws, "valid": valid, "panics": panics, "fromstr": fromstr_ok,
+                                 "first": i0 + 1, "cmp": cmp, "prefix": pre}));
+            i0 = i1;
+        }
+    }
+
+    /// The order in which the real source walk emits the current source tree.
+    fn do_walk(&mut self, st: &Value) {
+        let excl = str_list(st.get("excl"));
+        let src = self.src.clone();
+        let src_paths: BTreeSet<Vec<Vec<u8>>> = self.src_tree.iter().map(|n| n.p.clone()).collect();
+        let r = catch_unwind(AssertUnwindSafe(|| -> Result<Vec<Value>, String> {
+            let lt = SourceTree::open(&src).map_err(|e| err_name(&e))?;
+            let exclude = Exclude::from_strings(excl.iter()).map_err(|e| err_name(&e))?;
+            let it = lt.iter_entries(Apath::root(), exclude, TestMonitor::arc()).map_err(|e| err_name(&e))?;
+            Ok(it.map(|e| json!({"p": tree::comps_of(conserve::EntryTrait::apath(&e))})).collect())
+        }));
+        let (res, panic, entries) = match r {
+            Ok(Ok(v)) => ("ok".to_string(), false, v),
+            Ok(Err(e)) => (e, false, vec![]),
+            Err(_) => ("panic".to_string(), true, vec![]),
+        };
+        self.log.emit(json!({"ev": "obs", "what": "walk", "band": -1, "picked": -1,
+            "subtree": [], "has_subtree": false, "match": match_facts(&excl, &src_paths), "excl": excl,
+            "overwrite": false, "dest": "", "res": res, "panic": panic, "pmsg": take_panic(), "timeout": false,
+            "mon_errors": 0, "mon_list": [],
+            "tree": [], "entries": entries, "quick": false, "versions": [], "changes": [],
+            "dest_unchanged": true, "outside_unchanged": true, "ms": 0}));
     }
 
     /// Direct contract probe of the transport: one write through the hooked transport.
